@@ -1085,9 +1085,11 @@ def run_container(run, spec, op, kind, rng, malformed=False, stack_dim=None):
             out += [c.stack_dim, [[list(m.batch_size), [None if x is None else str(x) for x in m.names], sorted(map(str, m.keys(True, True)))] for m in c.tensordicts]]
         return out
     meta_before = cont_meta()
+    # a tensorclass is also called through `torch.<op>(tc, …)` and with keywords (a lazy stack through the method, as in the grid)
+    spelling = rng.choice([0, 0, 3, 4, 5]) if kind == "tc" else 0
     try:
         with time_limit(30.0):
-            r = call(cont, op)
+            r = call(cont, op, spelling)
     except Exception as e:  # noqa: BLE001
         slow_is_infra(e)
         if not isinstance(e, TimeoutError) and cont_meta() != meta_before:
@@ -1107,8 +1109,14 @@ def run_container(run, spec, op, kind, rng, malformed=False, stack_dim=None):
                                 f"lazy stack refuses a valid transpose: {str(e)[:100]}", "stackdim-nonadjacent:transpose:rejects-torch-accepts:ValueError")
             else:
                 run.count(site + ".refused", op[0])
+        elif kind == "tc":
+            # a tensorclass delegates to the TensorDict code: a rejection is judged like the dense one (rejects iff torch rejects, modulo
+            # the documented stricter rejections)
+            oracle(run, sp, cont._tensordict, op, impl, raw, site=site)
         else:
-            run.count(site + ".refused", op[0])
+            # a lazy stack refuses several ops / arguments by design (`view`, heterogeneous results): counted, not judged — EXCEPT in the
+            # argument grid below, where every generated call is valid for a dense tensordict of that batch size
+            run.count(site + ".refused", op[0] + ":" + type(e).__name__)
         return
     case = {"op": list(op), "td": spec_sx(sp), "container": kind}
     if cont_meta() != meta_before:
